@@ -66,6 +66,10 @@ def shapes(tier, focus="C14"):
     out.append({"mode": "inmem", "N": 2, "req": 2, "init": None, "growth": 2, "n_lin": 1, "nonfinite": None})
     out.append({"mode": "file", "N": 3, "req": 2, "init": None, "growth": 2, "n_lin": 1, "maxprior": None, "randomize": False, "src": "filename", "n_batches": None})
     out.append({"mode": "file", "N": 3, "req": 1, "init": None, "growth": 2, "n_lin": 1, "maxprior": None, "randomize": False, "src": "filename", "n_batches": None})
+    # call history: the same file name / JokerSamples object held another library when the sampler ran before
+    for N, srck, init in ((3, "filename", 1), (3, "object", 2)):
+        out.append({"mode": "file", "N": N, "req": 2, "init": init, "growth": 128, "n_lin": 1, "maxprior": None, "randomize": init == 1, "src": srck, "n_batches": None,
+                    "history": True})
     # budget
     for N in ([3, 4] if tier == "quick" else [3, 4, 5]):
         out.append({"mode": "file", "N": N, "req": 2, "init": 1, "growth": 128, "n_lin": 1, "maxprior": N - 1, "randomize": N == 3, "src": "filename", "n_batches": None})
@@ -123,10 +127,36 @@ def run_harness(S, shape, logprobs=False):
     elif mode == "file":
         h = mk_helper()
         pool = env.Pool(w, size=1, order="reversed")
-        src = S.as_file(lib, lnp) if shape["src"] == "filename" else S.as_samples(lib, lnp)
-        out = S.mp.iterative_rejection_helper(h, src, pool=pool, rng=rng, n_requested_samples=req, init_batch_size=shape["init"],
-                                              growth_factor=shape["growth"], max_prior_samples=shape["maxprior"], n_linear_samples=nlin,
-                                              return_logprobs=logprobs, n_batches=shape["n_batches"], randomize_prior_order=shape["randomize"])
+
+        def call(src_, rng_):
+            return S.mp.iterative_rejection_helper(h, src_, pool=pool, rng=rng_, n_requested_samples=req, init_batch_size=shape["init"],
+                                                   growth_factor=shape["growth"], max_prior_samples=shape["maxprior"], n_linear_samples=nlin,
+                                                   return_logprobs=logprobs, n_batches=shape["n_batches"], randomize_prior_order=shape["randomize"])
+        if shape.get("history"):
+            # an earlier call on another library of the same size under the same file name / in the same object
+            libA, lnpA = S.library(N, with_lnp=True, tag="pre")
+            srcA = S.as_file(libA, lnpA) if shape["src"] == "filename" else S.as_samples(libA, lnpA)
+            try:
+                call(srcA, env.SymRng(w))
+            except (ValueError, RuntimeError):
+                pass
+            w.streams.clear()
+            del w.log[:]
+            for h_ in S.helpers:
+                del h_.ll_calls[:]
+                del h_.post_calls[:]
+            if shape["src"] == "filename":
+                src = S.as_file(lib, lnp)
+            else:
+                src = srcA
+                lu = S.lib_units()
+                for ci, c in enumerate(groupa.NL):
+                    src[c] = units.Quantity(symnp.SymArray(symnp._obj([r[ci] for r in lib]), symnp._F8), lu[c])
+                src["ln_prior"] = units.Quantity(symnp.SymArray(symnp._obj(list(lnp)), symnp._F8), units.one)
+            rng = env.SymRng(w)
+        else:
+            src = S.as_file(lib, lnp) if shape["src"] == "filename" else S.as_samples(lib, lnp)
+        out = call(src, rng)
         info["randomized"] = shape["randomize"]
         if shape["maxprior"] is not None:
             budget = min(N, shape["maxprior"])
@@ -418,6 +448,28 @@ def replay(cand, focus="C14"):
             elif mode == "file":
                 import schwimmbad
                 src = fn if shape["src"] == "filename" else prior
+                if shape.get("history"):
+                    # the shape's call history: another library under the same name / in the same object, sampled before
+                    colu = list(zip(["P", "e", "omega", "M0", "s"], [u.day, u.one, u.rad, u.rad, u.km / u.s]))
+                    libA = lib + np.array([100.0, 0.0, 0.0, 0.0, 0.0])
+                    for r in libA:
+                        key[tuple(np.round(r, 12))] = 0.0
+                    for ci, (c, un) in enumerate(colu):
+                        prior[c] = libA[:, ci] * un
+                    prior["ln_prior"] = lnp - 1000.0
+                    prior.write(fn, overwrite=True)
+                    try:
+                        mph.iterative_rejection_helper(helper, src, pool=schwimmbad.SerialPool(), rng=np.random.default_rng(3), n_requested_samples=req,
+                                                       init_batch_size=shape["init"], growth_factor=shape["growth"], max_prior_samples=shape["maxprior"],
+                                                       n_linear_samples=nlin, return_logprobs=logprobs, n_batches=shape["n_batches"],
+                                                       randomize_prior_order=shape["randomize"])
+                    except (ValueError, RuntimeError):
+                        pass
+                    FakeHelper.evaluated = []
+                    for ci, (c, un) in enumerate(colu):
+                        prior[c] = lib[:, ci] * un
+                    prior["ln_prior"] = lnp
+                    prior.write(fn, overwrite=True)
                 out = mph.iterative_rejection_helper(helper, src, pool=schwimmbad.SerialPool(), rng=rng, n_requested_samples=req,
                                                      init_batch_size=shape["init"], growth_factor=shape["growth"], max_prior_samples=shape["maxprior"],
                                                      n_linear_samples=nlin, return_logprobs=logprobs, n_batches=shape["n_batches"],
